@@ -338,6 +338,9 @@ pub struct UserRx {
     shared: Arc<UserRxShared>,
     ooq: OutOfOrderQueue,
     max_incoming_payload: NonZeroUsize,
+    // The segment size the advertised window is currently rounded down to (see rx_window()). It
+    // grows with path MTU discovery.
+    window_granularity: usize,
     last_remaining_rx_window: usize,
 }
 
@@ -369,6 +372,7 @@ impl UserRx {
             shared,
             ooq: out_of_order_queue,
             max_incoming_payload,
+            window_granularity: max_incoming_payload.get(),
             last_remaining_rx_window: max_rx_bytes.get(),
         };
         (write_half, read_half)
@@ -403,6 +407,12 @@ impl UserRx {
         }
     }
 
+    /// The advertised window is zero below this many free bytes, so that's when we need the reader
+    /// to wake us up once it frees space.
+    pub fn set_window_granularity(&mut self, mss: usize) {
+        self.window_granularity = mss.max(self.max_incoming_payload.get());
+    }
+
     /// Flush the outstanding messages to user read half.
     /// Returns the number of bytes flushed.
     pub fn flush(&mut self, cx: &mut std::task::Context<'_>) -> crate::Result<usize> {
@@ -414,7 +424,7 @@ impl UserRx {
             let mut g = self.shared.locked.lock();
             update_optional_waker(&mut g.dispatcher_waker_on_drop, cx);
             let remaining_window = g.queue.window();
-            if remaining_window.saturating_sub(parked_bytes) < self.max_incoming_payload.get() {
+            if remaining_window.saturating_sub(parked_bytes) < self.window_granularity {
                 update_optional_waker(&mut g.dispatcher_waker, cx);
             }
             remaining_window
